@@ -183,6 +183,14 @@ func faults(base *dt.File) []fault {
 		parent := nodeAt(t, p[:len(p)-1])
 		c := nodeAt(t, p).Clone()
 		clearIDs(c)
+		// only the body is to be second: a copied Headers child would be a second fault
+		var kk []*dt.Node
+		for _, k := range c.Kids {
+			if k.Kw != "Headers" {
+				kk = append(kk, k)
+			}
+		}
+		c.Kids = kk
 		idx := p[len(p)-1] + 1
 		parent.Kids = append(parent.Kids[:idx:idx], append([]*dt.Node{c}, parent.Kids[idx:]...)...)
 		// the offending directive is the one that carries the second body: the Request itself or its child Body
@@ -237,6 +245,18 @@ func faults(base *dt.File) []fault {
 		appendRoot(t2, mark(dt.N("TYPE", "@usesUndefined").WithBody(dt.SchemaBody, []string{`{"r": @undefinedType}`})))
 		f := add("undefined-type-in-type", t2, "not found")
 		f.BodyLine = 0
+	}
+	// PASTE without a name: at the root, inside an unpasted MACRO body, inside a pasted MACRO body
+	{
+		t := base.Clone()
+		appendRoot(t, dt.N("TAG", "@sepTag2"))
+		appendRoot(t, mark(dt.N("PASTE")))
+		add("missing-parameter-PASTE", t, "required parameter(s) not specified")
+		t2 := base.Clone()
+		m := dt.N("MACRO", "@holdsNamelessPaste").Add(dt.N("TYPE", "@hnpT", "any"), mark(dt.N("PASTE")))
+		m.Explicit = true
+		appendRoot(t2, m)
+		add("missing-parameter-PASTE-in-unpasted-macro", t2, "required parameter(s) not specified")
 	}
 	// missing required parameter
 	for _, c := range []struct{ k, parent string }{{"SERVER", ""}, {"TAG", ""}, {"Title", "INFO"}, {"Version", "INFO"}, {"BaseUrl", "SERVER"}, {"OperationId", "GET"}, {"Tags", "GET"}} {
@@ -365,6 +385,33 @@ type c03Params struct {
 	Placement bool `json:"placement"`
 }
 
+// c03RichDocs: a few dense documents in which lists, names and shapes repeat (two Tags directives with the same list, two
+// methods under one URL, several responses, ...): a fault at the second of two similar sites must still be found.
+func c03RichDocs() []*model.Doc {
+	p := model.DefaultPalette()
+	tags := []string{"@cats"}
+	h := func(m, path string, extra func(*model.HTTP)) *model.HTTP {
+		x := &model.HTTP{Method: m, Path: path, Tags: tags, Resps: []model.Resp{p.Resps[0], p.Resps[1]}}
+		if extra != nil {
+			extra(x)
+		}
+		return x
+	}
+	d1 := &model.Doc{Blocks: []any{p.Infos[1], p.Servers[0], p.Servers[1], p.Tags[0], p.Tags[1], p.Types[0], p.Types[5], p.Enums[0],
+		h("GET", "/a", func(x *model.HTTP) { x.Desc = "gets"; x.Query = p.Queries[0] }),
+		h("POST", "/a", func(x *model.HTTP) { x.Req = p.Reqs[1]; x.OpID = "postA" }),
+		h("GET", "/a/{id}", func(x *model.HTTP) { x.PathS = model.Obj(model.P("id", model.Int("5"))); x.Req = p.Reqs[0] }),
+		p.RPCs[0],
+	}}
+	d2 := &model.Doc{Blocks: []any{p.Tags[0], p.Tags[1], p.Types[0],
+		&model.Group{Path: "/g", Tags: []string{"@cats"}, Methods: []*model.HTTP{
+			{Method: "GET", Path: "/g", Tags: []string{"@cats"}, Resps: []model.Resp{p.Resps[2]}},
+			{Method: "POST", Path: "/g", Tags: []string{"@cats"}, Req: p.Reqs[1], Resps: []model.Resp{p.Resps[4], p.Resps[5]}}}},
+		p.RPCs[1],
+	}}
+	return []*model.Doc{d1, d2}
+}
+
 func workC03(w *run.W) {
 	var p c03Params
 	json.Unmarshal(w.Params, &p)
@@ -372,10 +419,25 @@ func workC03(w *run.W) {
 	defer os.RemoveAll(dir)
 	pal := model.DefaultPalette()
 	idx := int64(-1)
-	only := map[string]bool{"sep": true, "sep-after-text": true, "blank": true, "quote": true, "ann": true, "trail": true, "explicit": true, "prebody": true, "textparen": true, "body": true}
-	model.EnumDocs(pal, p.Budget, 0, func(d *model.Doc) {
+	rich := c03RichDocs()
+	only := map[string]bool{"sep": true, "sep-after-text": true, "blank": true, "quote": true, "ann": true, "trail": true, "explicit": true, "prebody": true, "textparen": true, "body": true, "postbody": true}
+	richMode := false
+	var fidx int64
+	each := func(fn func(d *model.Doc)) {
+		richMode = true
+		for _, d := range rich {
+			fn(d)
+		}
+		richMode = false
+		model.EnumDocs(pal, p.Budget, 0, fn)
+	}
+	each(func(d *model.Doc) {
 		idx++
-		if !w.Mine(idx) || !w.Begin(fmt.Sprintf("doc%d", idx)) {
+		// the dense documents are shared out fault by fault, the enumerated ones document by document
+		if !richMode && !w.Mine(idx) {
+			return
+		}
+		if !w.Begin(fmt.Sprintf("doc%d", idx)) {
 			return
 		}
 		defer w.End()
@@ -390,6 +452,13 @@ func workC03(w *run.W) {
 			}
 			for _, fc := range faults(base) {
 				fc := fc
+				if richMode {
+					fidx++
+					if !w.Mine(fidx) {
+						continue
+					}
+				}
+				w.Touch()
 				placements := []int{-1}
 				if p.Placement && !strings.HasPrefix(fc.Class, "jsight-") {
 					placements = []int{-1, 0, 2} // in place; top-level ancestor moved into MACRO+PASTE; into an INCLUDE file
